@@ -1,0 +1,79 @@
+//go:build verif
+
+package starlark
+
+// Verification hooks, compiled only with -tags verif.  Each hook is a
+// package-level function variable that a test harness may set; nil means off.
+// They fire at linearisation points:
+//
+//	VerifIter    after an iterator counter of a list or hash table changed (+1/-1)
+//	VerifFreeze  after the frozen flag of a list or hash table was stored
+//	VerifFrame   after a frame was pushed on (+1) / popped off (-1) a thread's call stack
+//	VerifStep    at the interpreter loop head, after the step-limit and cancellation
+//	             tests and before the instruction is decoded (may block: scheduler gate)
+
+import "go.starlark.net/internal/compile"
+
+var (
+	VerifIter   func(delta int, obj any)
+	VerifFreeze func(obj any)
+	VerifFrame  func(thread *Thread, delta int, depth int)
+	VerifStep   func(thread *Thread, fn *Function, pc uint32)
+)
+
+func vIter(delta int, obj any) {
+	if h := VerifIter; h != nil {
+		h(delta, obj)
+	}
+}
+
+func vFreeze(obj any) {
+	if h := VerifFreeze; h != nil {
+		h(obj)
+	}
+}
+
+func vFrame(thread *Thread, delta int) {
+	if h := VerifFrame; h != nil {
+		h(thread, delta, len(thread.stack))
+	}
+}
+
+func vStep(thread *Thread, fn *Function, pc uint32) {
+	if h := VerifStep; h != nil {
+		h(thread, fn, pc)
+	}
+}
+
+// VerifTable returns the identity under which hooks report the hash table of
+// a dict or set, and the list itself for a list (nil otherwise).
+func VerifTable(v Value) any {
+	switch v := v.(type) {
+	case *Dict:
+		return &v.ht
+	case *Set:
+		return &v.ht
+	case *List:
+		return v
+	}
+	return nil
+}
+
+// VerifIterCount reports the iterator counter and frozen flag of a list, dict or set.
+func VerifIterCount(v Value) (count uint32, frozen bool, ok bool) {
+	switch v := v.(type) {
+	case *Dict:
+		return v.ht.itercount, v.ht.frozen, true
+	case *Set:
+		return v.ht.itercount, v.ht.frozen, true
+	case *List:
+		return v.itercount, v.frozen, true
+	}
+	return 0, false, false
+}
+
+// VerifFuncode exposes the compiled form of a function (read only).
+func VerifFuncode(fn *Function) *compile.Funcode { return fn.funcode }
+
+// VerifOpcodeName names an opcode of the byte code in VerifFuncode(fn).Code.
+func VerifOpcodeName(op byte) string { return compile.Opcode(op).String() }
